@@ -1,7 +1,30 @@
+/-
+Closed forms of the machine-translated tracker functions (C16).
+
+Only the *entry points* of the translation are mentioned by name here (`Blocking.block/unblock/isBlocked`, the five
+`Tracker.handleStatus…`, `Tracker.getNewStatusIfChanged`, `Tracker.runIteration`): these are the seams the repo's own
+tests call.  Private helpers of the current source (`_is_…`, `_get_current_status`, whatever a refactoring introduces)
+are unfolded by the generated tactic `c16_unfold_helpers`.  Every closed form is proved by case analysis on the
+*semantic* atoms (flags, status, optional deadline, comparisons) followed by simplification — not by matching the
+syntactic shape of the translated term — so behaviour-preserving rewrites of the Python source (inverted conditions,
+reordered branches, guard clauses, single-return style, `match`, extracted/inlined helpers) leave the proofs intact,
+while a behavioural change makes them fail.
+-/
 import Frequenz.Model.BatteryStatus
 import Mathlib.Tactic.SplitIfs
+
 namespace BatteryStatus
 open Extracted.BatteryStatus
+
+/-- Closes a leaf goal after the case distinctions, whatever shape the translated function has. -/
+macro "c16_leaf" : tactic =>
+  `(tactic| first
+      | rfl
+      | (simp_all; done)
+      | omega
+      | grind
+      | (simp_all <;> first | omega | grind)
+      | ((repeat' split) <;> first | rfl | (simp_all; done) | omega | grind | (simp_all <;> first | omega | grind)))
 
 /-- Is the optional deadline still in the future? -/
 def blockedB (u : Option Int) (now : Int) : Bool :=
@@ -9,11 +32,26 @@ def blockedB (u : Option Int) (now : Int) : Bool :=
   | none => false
   | some x => decide (now < x)
 
-theorem isBlocked_eq (b : Blocking) (now : Int) : Blocking.isBlocked b now = blockedB b.blockedUntil now := by
-  unfold Blocking.isBlocked blockedB optCmp
-  cases h : b.blockedUntil <;> simp [gt_iff_lt]
+theorem pyMinInt_eq (a b : Int) : pyMinInt a b = min a b := by
+  unfold pyMinInt; omega
 
-theorem unblock_eq (b : Blocking) (now : Int) : Blocking.unblock b now = { b with blockedUntil := none } := rfl
+theorem pyMaxInt_eq (a b : Int) : pyMaxInt a b = max a b := by
+  unfold pyMaxInt; omega
+
+/-! ## `BlockingStatus` -/
+
+theorem isBlocked_eq (b : Blocking) (now : Int) : Blocking.isBlocked b now = blockedB b.blockedUntil now := by
+  obtain ⟨mn, mx, ld, bu⟩ := b
+  unfold Blocking.isBlocked
+  cases bu with
+  | none => c16_unfold_helpers <;> (try simp [blockedB, optCmp]) <;> c16_leaf
+  | some u =>
+    by_cases h : now < u <;> c16_unfold_helpers <;> (try simp [blockedB, optCmp, h]) <;> c16_leaf
+
+theorem unblock_eq (b : Blocking) (now : Int) : Blocking.unblock b now = { b with blockedUntil := none } := by
+  first
+    | rfl
+    | (obtain ⟨mn, mx, ld, bu⟩ := b; unfold Blocking.unblock; c16_unfold_helpers <;> (try simp) <;> c16_leaf)
 
 /-- `BlockingStatus.block` in closed form. -/
 def blockRef (b : Blocking) (now : Int) : Blocking :=
@@ -25,18 +63,14 @@ def blockRef (b : Blocking) (now : Int) : Blocking :=
       let d := min (2 * b.lastBlockingDuration) b.maxDuration
       { b with lastBlockingDuration := d, blockedUntil := some (now + d) }
 
-theorem pyMinInt_eq (a b : Int) : pyMinInt a b = min a b := by
-  unfold pyMinInt; omega
-
 theorem block_eq (b : Blocking) (now : Int) : (Blocking.block b now).1 = blockRef b now := by
-  unfold Blocking.block blockRef optCmp
-  cases h : b.blockedUntil with
-  | none => simp
+  obtain ⟨mn, mx, ld, bu⟩ := b
+  unfold Blocking.block
+  cases bu with
+  | none => c16_unfold_helpers <;> (try simp [blockRef, optCmp, pyMinInt_eq, pyMaxInt_eq]) <;> c16_leaf
   | some u =>
-    simp only [Option.isNone_some, Bool.false_eq_true, if_false, gt_iff_lt, decide_eq_true_eq]
-    by_cases hu : now < u
-    · simp [hu]
-    · simp [hu, pyMinInt_eq]
+    by_cases h : now < u <;> c16_unfold_helpers <;>
+      (try simp [blockRef, optCmp, pyMinInt_eq, pyMaxInt_eq, h]) <;> c16_leaf
 
 /-! ## `_get_new_status_if_changed` in closed form -/
 
@@ -56,72 +90,44 @@ def evalRef (s : Tracker) (now : Int) : Tracker × Option Status :=
 
 theorem getNew_eq (s : Tracker) (now : Int) : Tracker.getNewStatusIfChanged s now = evalRef s now := by
   obtain ⟨ma, ls, blk, ⟨bts, bok, bra⟩, ⟨its, iok, ira⟩⟩ := s
-  unfold Tracker.getNewStatusIfChanged Tracker.getCurrentStatus evalRef curStatus healthyB
-  simp only [isBlocked_eq, unblock_eq]
-  cases bok <;> cases iok <;> cases ls <;> cases hb : blockedB blk.blockedUntil now <;> simp_all
+  unfold Tracker.getNewStatusIfChanged
+  cases bok <;> cases iok <;> cases ls <;> cases hb : blockedB blk.blockedUntil now <;>
+    c16_unfold_helpers <;>
+    (try simp [isBlocked_eq, unblock_eq, evalRef, curStatus, healthyB, hb]) <;> c16_leaf
 
 /-! ## Message validity -/
 
+/-- The latest-message flag the handlers must compute: healthy facts and not older than `maxDataAge` on arrival. -/
 def batOkB (s : Tracker) (now : Int) (m : Msg) : Bool :=
-  (Tracker.isMessageReliable s now m) && (Tracker.isBatteryStateCorrect s now m) &&
-    (Tracker.noCriticalError s now m) && (Tracker.isCapacityPresent s now m)
+  decide (BatHealthy m ∧ now - m.timestamp ≤ s.maxDataAge)
 
 def invOkB (s : Tracker) (now : Int) (m : Msg) : Bool :=
-  (Tracker.isMessageReliable s now m) && (Tracker.isInverterStateCorrect s now m) &&
-    (Tracker.noCriticalError s now m)
+  decide (InvHealthy m ∧ now - m.timestamp ≤ s.maxDataAge)
 
-theorem reliable_iff (s : Tracker) (now : Int) (m : Msg) :
-    Tracker.isMessageReliable s now m = true ↔ now - m.timestamp ≤ s.maxDataAge := by
-  unfold Tracker.isMessageReliable Tracker.isTimestampOutdated
-  simp only [Bool.not_eq_true', decide_eq_false_iff_not, gt_iff_lt]
-  omega
+theorem batOkB_iff (s : Tracker) (now : Int) (m : Msg) :
+    batOkB s now m = true ↔ (BatHealthy m ∧ now - m.timestamp ≤ s.maxDataAge) := by
+  simp [batOkB]
 
-theorem noCritical_iff (s : Tracker) (now : Int) (m : Msg) :
-    Tracker.noCriticalError s now m = true ↔ criticalLevel ∉ m.errorLevels := by
-  unfold Tracker.noCriticalError criticalLevel
-  by_cases h : "CRITICAL" ∈ m.errorLevels
-  · have : (List.find? (fun err => err == "CRITICAL") m.errorLevels).isSome = true := by
+theorem invOkB_iff (s : Tracker) (now : Int) (m : Msg) :
+    invOkB s now m = true ↔ (InvHealthy m ∧ now - m.timestamp ≤ s.maxDataAge) := by
+  simp [invOkB]
+
+/-- Searching a list of levels for a given one (`next((e for e in errors if e.level == c), None)`). -/
+theorem find_level_isSome (xs : List String) (c : String) :
+    (xs.find? (fun e => e == c)).isSome = decide (c ∈ xs) := by
+  by_cases h : c ∈ xs
+  · have : (List.find? (fun e => e == c) xs).isSome = true := by
       rw [List.find?_isSome]; exact ⟨_, h, by simp⟩
     simp [this, h]
-  · have : (List.find? (fun err => err == "CRITICAL") m.errorLevels).isSome = false := by
+  · have : (List.find? (fun e => e == c) xs).isSome = false := by
       rw [Bool.eq_false_iff]; intro hc; rw [List.find?_isSome] at hc
       obtain ⟨x, hx, hp⟩ := hc; simp at hp; subst hp; exact h hx
     simp [this, h]
 
-theorem batState_iff (s : Tracker) (now : Int) (m : Msg) :
-    Tracker.isBatteryStateCorrect s now m = true ↔
-      m.componentState ∈ batteryValidState ∧ m.relayState ∈ batteryValidRelay := by
-  unfold Tracker.isBatteryStateCorrect
-  by_cases h1 : m.componentState ∈ batteryValidState <;> by_cases h2 : m.relayState ∈ batteryValidRelay <;>
-    simp [h1, h2]
-
-theorem invState_iff (s : Tracker) (now : Int) (m : Msg) :
-    Tracker.isInverterStateCorrect s now m = true ↔ m.componentState ∈ inverterValidState := by
-  unfold Tracker.isInverterStateCorrect
-  by_cases h1 : m.componentState ∈ inverterValidState <;> simp [h1]
-
-theorem capacity_iff (s : Tracker) (now : Int) (m : Msg) :
-    Tracker.isCapacityPresent s now m = true ↔ m.capacityIsNaN = false := by
-  unfold Tracker.isCapacityPresent
-  cases m.capacityIsNaN <;> simp
-
-theorem batOkB_iff (s : Tracker) (now : Int) (m : Msg) :
-    batOkB s now m = true ↔ (BatHealthy m ∧ now - m.timestamp ≤ s.maxDataAge) := by
-  unfold batOkB BatHealthy
-  simp only [Bool.and_eq_true, reliable_iff, batState_iff, noCritical_iff, capacity_iff]
-  exact ⟨fun ⟨⟨⟨a, b, c⟩, d⟩, e⟩ => ⟨⟨b, c, d, e⟩, a⟩, fun ⟨⟨b, c, d, e⟩, a⟩ => ⟨⟨⟨a, b, c⟩, d⟩, e⟩⟩
-
-theorem invOkB_iff (s : Tracker) (now : Int) (m : Msg) :
-    invOkB s now m = true ↔ (InvHealthy m ∧ now - m.timestamp ≤ s.maxDataAge) := by
-  unfold invOkB InvHealthy
-  simp only [Bool.and_eq_true, reliable_iff, invState_iff, noCritical_iff]
-  exact ⟨fun ⟨⟨a, b⟩, d⟩ => ⟨⟨b, d⟩, a⟩, fun ⟨⟨b, d⟩, a⟩ => ⟨⟨a, b⟩, d⟩⟩
-
-/-! ## One iteration of the select loop, per kind of event -/
-
-theorem sent_collapse {α β : Type} (a : α) (o : Option β) :
-    (if o.isSome = true then (a, o) else (a, none)) = (a, o) := by
-  cases o <;> simp
+theorem find_level_isNone (xs : List String) (c : String) :
+    (xs.find? (fun e => e == c)).isNone = decide (c ∉ xs) := by
+  have := find_level_isSome xs c
+  cases h : List.find? (fun e => e == c) xs <;> simp_all
 
 /-- State after `_handle_status_battery`. -/
 def afterBat (s : Tracker) (now : Int) (m : Msg) : Tracker :=
@@ -130,53 +136,96 @@ def afterBat (s : Tracker) (now : Int) (m : Msg) : Tracker :=
 def afterInv (s : Tracker) (now : Int) (m : Msg) : Tracker :=
   { s with inverter := { lastMsgTimestamp := m.timestamp, lastMsgCorrect := invOkB s now m, timerResetAt := now } }
 
+theorem handleBat_eq (s : Tracker) (now : Int) (m : Msg) :
+    Tracker.handleStatusBattery s now m = afterBat s now m := by
+  obtain ⟨ma, ls, blk, ⟨bts, bok, bra⟩, inv⟩ := s
+  obtain ⟨ts, cs, rs, errs, nan⟩ := m
+  unfold Tracker.handleStatusBattery
+  by_cases h1 : now - ts ≤ ma <;> by_cases h2 : cs ∈ batteryValidState <;> by_cases h3 : rs ∈ batteryValidRelay <;>
+    by_cases h4 : "CRITICAL" ∈ errs <;> cases nan <;>
+    c16_unfold_helpers <;>
+    (try simp [afterBat, batOkB, BatHealthy, criticalLevel, find_level_isSome, find_level_isNone, h1, h2, h3, h4]) <;>
+    c16_leaf
+
+theorem handleInv_eq (s : Tracker) (now : Int) (m : Msg) :
+    Tracker.handleStatusInverter s now m = afterInv s now m := by
+  obtain ⟨ma, ls, blk, bat, ⟨its, iok, ira⟩⟩ := s
+  obtain ⟨ts, cs, rs, errs, nan⟩ := m
+  unfold Tracker.handleStatusInverter
+  by_cases h1 : now - ts ≤ ma <;> by_cases h2 : cs ∈ inverterValidState <;> by_cases h4 : "CRITICAL" ∈ errs <;>
+    c16_unfold_helpers <;>
+    (try simp [afterInv, invOkB, InvHealthy, criticalLevel, find_level_isSome, find_level_isNone, h1, h2, h4]) <;>
+    c16_leaf
+
 /-- Blocking state after `_handle_status_set_power_result`. -/
 def spBlocking (s : Tracker) (now : Int) (r : SpResult) : Blocking :=
   if r.succeeded = true then { s.blocking with blockedUntil := none }
   else if r.failed = true ∧ s.lastStatus ≠ Status.notWorking then blockRef s.blocking now
   else s.blocking
 
+theorem handleSp_eq (s : Tracker) (now : Int) (r : SpResult) :
+    Tracker.handleStatusSetPowerResult s now r = { s with blocking := spBlocking s now r } := by
+  obtain ⟨ma, ls, blk, b, i⟩ := s
+  obtain ⟨succ, fail⟩ := r
+  unfold Tracker.handleStatusSetPowerResult
+  cases succ <;> cases fail <;> cases ls <;>
+    c16_unfold_helpers <;> (try simp [unblock_eq, block_eq, spBlocking]) <;> c16_leaf
+
+theorem handleBatTimer_eq (s : Tracker) (now : Int) :
+    Tracker.handleStatusBatteryTimer s now = { s with battery := { s.battery with lastMsgCorrect := false } } := by
+  obtain ⟨ma, ls, blk, ⟨bts, bok, bra⟩, i⟩ := s
+  unfold Tracker.handleStatusBatteryTimer
+  cases bok <;> c16_unfold_helpers <;> (try simp) <;> c16_leaf
+
+theorem handleInvTimer_eq (s : Tracker) (now : Int) :
+    Tracker.handleStatusInverterTimer s now = { s with inverter := { s.inverter with lastMsgCorrect := false } } := by
+  obtain ⟨ma, ls, blk, b, ⟨its, iok, ira⟩⟩ := s
+  unfold Tracker.handleStatusInverterTimer
+  cases iok <;> c16_unfold_helpers <;> (try simp) <;> c16_leaf
+
+/-! ## One iteration of the select loop, per kind of event -/
+
 theorem step_bat (s : Tracker) (now : Int) (m : Msg) :
     step s (.bat now m) = evalRef (afterBat s now m) now := by
-  simp only [step, Event.now, Event.selected, Tracker.runIteration, getNew_eq, sent_collapse]
-  rfl
+  simp only [step, Event.now, Event.selected]
+  unfold Tracker.runIteration
+  cases h : (evalRef (afterBat s now m) now).2 <;>
+    c16_unfold_helpers <;> (try simp [handleBat_eq, getNew_eq, h]) <;> c16_leaf
 
 theorem step_inv (s : Tracker) (now : Int) (m : Msg) :
     step s (.inv now m) = evalRef (afterInv s now m) now := by
-  simp only [step, Event.now, Event.selected, Tracker.runIteration, getNew_eq, sent_collapse]
-  rfl
+  simp only [step, Event.now, Event.selected]
+  unfold Tracker.runIteration
+  cases h : (evalRef (afterInv s now m) now).2 <;>
+    c16_unfold_helpers <;> (try simp [handleInv_eq, getNew_eq, h]) <;> c16_leaf
 
 theorem step_setPower (s : Tracker) (now : Int) (r : SpResult) :
     step s (.setPower now r) = evalRef { s with blocking := spBlocking s now r } now := by
-  simp only [step, Event.now, Event.selected, Tracker.runIteration, getNew_eq, sent_collapse]
-  have : Tracker.handleStatusSetPowerResult s now r = { s with blocking := spBlocking s now r } := by
-    obtain ⟨ma, ls, blk, b, i⟩ := s
-    unfold Tracker.handleStatusSetPowerResult spBlocking
-    cases hs : r.succeeded <;> cases hf : r.failed <;> cases ls <;> simp [unblock_eq, block_eq]
-  simp [this]
+  simp only [step, Event.now, Event.selected]
+  unfold Tracker.runIteration
+  cases h : (evalRef { s with blocking := spBlocking s now r } now).2 <;>
+    c16_unfold_helpers <;> (try simp [handleSp_eq, getNew_eq, h]) <;> c16_leaf
 
 theorem step_batTimer (s : Tracker) (now : Int) :
     step s (.batTimer now) =
       if now - s.battery.lastMsgTimestamp < s.maxDataAge then (s, none)
       else evalRef { s with battery := { s.battery with lastMsgCorrect := false } } now := by
-  simp only [step, Event.now, Event.selected, Tracker.runIteration, getNew_eq, sent_collapse]
-  by_cases h : now - s.battery.lastMsgTimestamp < s.maxDataAge
-  · simp [h]
-  · have : Tracker.handleStatusBatteryTimer s now = { s with battery := { s.battery with lastMsgCorrect := false } } := by
-      unfold Tracker.handleStatusBatteryTimer
-      cases hc : s.battery.lastMsgCorrect <;> simp [← hc]
-    simp [h, this]
+  simp only [step, Event.now, Event.selected]
+  unfold Tracker.runIteration
+  by_cases hg : now - s.battery.lastMsgTimestamp < s.maxDataAge
+  · c16_unfold_helpers <;> (try simp [hg]) <;> c16_leaf
+  · cases h : (evalRef { s with battery := { s.battery with lastMsgCorrect := false } } now).2 <;>
+      c16_unfold_helpers <;> (try simp [handleBatTimer_eq, getNew_eq, hg, h]) <;> c16_leaf
 
 theorem step_invTimer (s : Tracker) (now : Int) :
     step s (.invTimer now) =
       if now - s.inverter.lastMsgTimestamp < s.maxDataAge then (s, none)
       else evalRef { s with inverter := { s.inverter with lastMsgCorrect := false } } now := by
-  simp only [step, Event.now, Event.selected, Tracker.runIteration, getNew_eq, sent_collapse]
-  by_cases h : now - s.inverter.lastMsgTimestamp < s.maxDataAge
-  · simp [h]
-  · have : Tracker.handleStatusInverterTimer s now = { s with inverter := { s.inverter with lastMsgCorrect := false } } := by
-      unfold Tracker.handleStatusInverterTimer
-      cases hc : s.inverter.lastMsgCorrect <;> simp [← hc]
-    simp [h, this]
+  simp only [step, Event.now, Event.selected]
+  unfold Tracker.runIteration
+  by_cases hg : now - s.inverter.lastMsgTimestamp < s.maxDataAge
+  · c16_unfold_helpers <;> (try simp [hg]) <;> c16_leaf
+  · cases h : (evalRef { s with inverter := { s.inverter with lastMsgCorrect := false } } now).2 <;>
+      c16_unfold_helpers <;> (try simp [handleInvTimer_eq, getNew_eq, hg, h]) <;> c16_leaf
 
 end BatteryStatus
